@@ -89,6 +89,20 @@ def handle (s : State) : List String → State × String
     match get? s src with
     | some t => (put s dst t.neg, "ok")
     | none => (s, "bad-op")
+  | ["add", a, b, dst] =>
+    match get? s a, get? s b with
+    | some t, some u =>
+      match t.add u with
+      | .ok r => (put s dst r, "ok")
+      | .error e => (s, toString e)
+    | _, _ => (s, "bad-op")
+  | ["eq", a, b] =>
+    match get? s a, get? s b with
+    | some t, some u =>
+      match t.eqv u with
+      | .ok r => (s, if r then "1" else "0")
+      | .error e => (s, toString e)
+    | _, _ => (s, "bad-op")
   | ["compute", name, comp] =>
     match parseComputer? comp with
     | some c => upd s name c.run
